@@ -330,6 +330,11 @@ class CallsMixin:
             # 2. model class
             model = self.model_for(cls)
             if model is not None and hasattr(model, "m_" + name):
+                if not awaited and name in getattr(model, "ASYNC", ()):
+                    # a coroutine method of a library object called without await (handed to
+                    # wait_for / shield / create_task): nothing happens until it is awaited
+                    m_ = getattr(model, "m_" + name)
+                    return Coro(lambda: m_(self, obj, args, kwargs, fr), f"{qn_cls}.{name}")
                 return getattr(model, "m_" + name)(self, obj, args, kwargs, fr)
             # 3. contract on the method (own class or along the MRO / interface)
             fc = self.find_method_contract(cls, name)
@@ -399,6 +404,16 @@ class CallsMixin:
             f = z3.Function(f"enum_{cls.__name__}", z3.IntSort(), Opaque)
             return SymOpaque(f(z3_of_int(args[0])), cls.__name__)
         if (cls.__module__ or "").startswith("hypercorn"):
+            ufc = self.reg.fns.get(getattr(self, "unit_qual", ""))
+            view = (ufc.model_opts.get("views") or {}).get(f"{cls.__module__}:{cls.__qualname__}") if ufc is not None else None
+            if view is not None:
+                # this unit sees the class only through an interface contract (a "port"): the
+                # constructor call is recorded, the object carries the port's ghost state
+                vcc = self.reg.classes[view]
+                obj = SObj(view, {g_: (False if t_ == "bool" else 0) for g_, t_ in vcc.ghost.items()}, tag=self.ctx.fresh_name(view.split(":")[1].lower()))
+                self.register_shared(obj)
+                self.traces.setdefault("calls", []).append((f"{cls.__qualname__}.__init__", obj) + tuple(args) + tuple(kwargs.values()))
+                return obj
             fc = self.reg.fns.get(f"{cls.__module__}:{cls.__qualname__}.__init__")
             obj = SObj(cls, {})
             if fc is not None and not self.is_inlining(fc.qualname):
@@ -610,6 +625,10 @@ class CallsMixin:
             if model is not None and hasattr(model, "isinstance_of"):
                 return mk_bool(z3.Or(*[model.isinstance_of(self, v, cl) for cl in classes]))
             real = getattr(model, "real_class", None)
+            if real is None:
+                vcc = self.reg.classes.get(str(v.cls))
+                if vcc is not None and vcc.view_of:
+                    real = class_of(vcc.view_of)
             if real is not None:
                 return any(isinstance(cl, type) and issubclass(real, cl) for cl in classes)
             return False
